@@ -12,6 +12,7 @@ import (
 	"bytes"
 	"context"
 	"fmt"
+	"regexp"
 	"sort"
 	"strings"
 
@@ -412,7 +413,28 @@ func errStr(err error) string {
 	if err == nil {
 		return ""
 	}
-	return err.Error()
+	return Sanitize(err.Error())
+}
+
+var (
+	sanPath  = regexp.MustCompile(`(?:/[^/\s:"']+)+`)
+	sanNonce = regexp.MustCompile(`(snap-[0-9a-f]{16}-[0-9a-f]{16}-)[0-9a-f]{16}`)
+	sanScope = regexp.MustCompile(`\b(slot|controller)-[0-9]+\b`)
+)
+
+// Sanitize makes an error text of the store reproducible: file-system errors carry the
+// snapshot root of this execution (a per-instance scratch directory), the numeric id of the
+// scope and the random nonce of the snapshot directory. Violation messages must be identical
+// when the same history is executed again (the mc engine re-executes a violating path twice
+// and only believes a violation that reproduces verbatim), so every path is cut down to its
+// last element and the nonce / scope id are masked. Nothing the oracle compares goes through
+// here - only texts that are printed.
+func Sanitize(s string) string {
+	s = sanPath.ReplaceAllStringFunc(s, func(p string) string {
+		return "<dir>" + p[strings.LastIndexByte(p, '/'):]
+	})
+	s = sanNonce.ReplaceAllString(s, "${1}<nonce>")
+	return sanScope.ReplaceAllString(s, "${1}-<id>")
 }
 
 func render(es []raftpb.Entry) string {
@@ -478,7 +500,7 @@ func observe(ctx context.Context, st multiraft.Storage, n uint64, light bool) *O
 			}
 			es, err := st.Entries(ctx, lo, hi, 0)
 			if err != nil {
-				o.Ranges[[2]uint64{lo, hi}] = "ERR: " + err.Error()
+				o.Ranges[[2]uint64{lo, hi}] = "ERR: " + Sanitize(err.Error())
 				continue
 			}
 			o.Ranges[[2]uint64{lo, hi}] = render(es)
@@ -496,7 +518,7 @@ func observe(ctx context.Context, st multiraft.Storage, n uint64, light bool) *O
 	for _, ms := range SizeMenu {
 		es, err := st.Entries(ctx, 1, n+1, ms)
 		if err != nil {
-			o.Sized[ms] = "ERR: " + err.Error()
+			o.Sized[ms] = "ERR: " + Sanitize(err.Error())
 		} else {
 			o.Sized[ms] = render(es)
 		}
